@@ -2,6 +2,7 @@ import Drivers.Proto
 import St4sd.Model.Hash
 import St4sd.Model.HashFs
 import St4sd.Model.HashCache
+import St4sd.Model.HashExe
 /-!
 Model driver for property C16.
 
@@ -21,6 +22,10 @@ ops:
   event of the session that starts with empty caches (`Hash.answers`, `Hash.sersS` on `Hash.Session.new`), whether
   the session keeps the discipline of `C16.session_hashes_are_current` (`Hash.disciplinedB`) and whether the
   numbering of the components is topological (`Hash.wellOrderedB`);
+* both take an optional `live:[[stage,name,exe]…]` (the live configuration, `Hash.Conf`; the hashes are `Hash.hashesC` /
+  `Hash.hashesCFs`: the executable is read from `bps`); `history` understands the operation
+  `{op:validate, base, probes:[{which:str|null, real:[[p,rp]…], ok:[…]}…]}` (`Hash.cstep`) and answers the executables
+  of the live configuration (`live`) in every observation;
 * `ser`: `{image:str|null, args, exe, files:[…]}` → `{ser}` (`Hash.serialize`);
 * `tokens`: `{s}` → `{tokens}`; `subword`: `{pat, rep, s}` → `{out}`.
 -/
@@ -129,6 +134,27 @@ def parseOp (j : Json) : Except String Op := do
   | "reload" => return .reload
   | _ => throw s!"unknown fs op {op}"
 
+def parseStrPair (j : Json) : Except String (List Char × List Char) := do
+  let a ← j.getArr?
+  match a.toList with
+  | [p, d] => return ((← p.getStr?).toList, (← d.getStr?).toList)
+  | _ => throw "pair expected"
+
+def parseProbe (j : Json) : Except String Probe := do
+  return { which := ← getOptChars j "which", real := ← (← getArr j "real").mapM parseStrPair,
+           ok := ← getCharsList j "ok" }
+
+def parseCOp (j : Json) : Except String COp := do
+  let op ← getStr j "op"
+  match op with
+  | "validate" => return .validate (← getChars j "base") (← (← getArr j "probes").mapM parseProbe)
+  | _ => return .fs (← parseOp j)
+
+def parseLive (j : Json) : Except String Live :=
+  match j.getObjVal? "live" with
+  | .ok (Json.arr a) => a.toList.mapM parseBp
+  | _ => pure []
+
 def jview : Option (Option (List Char)) → Json
   | none => Json.null
   | some none => jstr "dir"
@@ -150,13 +176,16 @@ def handle (j : Json) : Except String Json := do
     let bps ← (← getArr j "bps").mapM parseBp
     let comps ← (← getArr j "comps").mapM parseSComp
     let fs ← (← getArr j "fs").mapM parseFsEntry
-    let ops ← (← getArr j "ops").mapM parseOp
+    let ops ← (← getArr j "ops").mapM parseCOp
+    let live ← parseLive j
     let paths ← getCharsList j "paths"
     let md5 := tableMd5 tab
-    let side (s : Fs) (fuzzy : Bool) : Json :=
-      jarr (((sersFs md5 fuzzy bps s comps).zip (hashesFs md5 fuzzy bps s comps)).map fun (x, h) => outOne x h)
-    return jobj [("obs", jarr ((states fs ops).map fun s =>
-      jobj [("strong", side s false), ("fuzzy", side s true), ("views", jarr (paths.map fun p => jview (view s p)))]))]
+    let side (s : CState) (fuzzy : Bool) : Json :=
+      jarr (((sersCFs md5 fuzzy bps s comps).zip (hashesCFs md5 fuzzy bps s comps)).map fun (x, h) => outOne x h)
+    return jobj [("obs", jarr ((cstates ⟨fs, live, live⟩ ops).map fun s =>
+      jobj [("strong", side s false), ("fuzzy", side s true),
+            ("views", jarr (paths.map fun p => jview (view s.fs p))),
+            ("live", jarr (s.live.map fun e => jchars e.2))]))]
   | "session" =>
     let tab ← (← getArr j "md5").mapM parsePair
     let bps ← (← getArr j "bps").mapM parseBp
@@ -176,6 +205,7 @@ def handle (j : Json) : Except String Json := do
     let bps ← (← getArr j "bps").mapM parseBp
     let comps ← (← getArr j "comps").mapM parseComp
     let old := (getBool j "old").toOption.getD false
+    let conf : Conf := ⟨bps, ← parseLive j⟩
     let md5 := tableMd5 tab
     let side (fuzzy : Bool) : Json :=
       if old then
@@ -183,7 +213,7 @@ def handle (j : Json) : Except String Json := do
           | some h => jobj [("hash", jchars h)]
           | none => Json.null)
       else
-        jarr (((sersD md5 fuzzy bps comps).zip (hashesD md5 fuzzy bps comps)).map fun (s, h) => outOne s h)
+        jarr (((sersC md5 fuzzy conf comps).zip (hashesC md5 fuzzy conf comps)).map fun (s, h) => outOne s h)
     return jobj [("strong", side false), ("fuzzy", side true)]
   | "ser" =>
     let image ← getOptChars j "image"
